@@ -508,6 +508,7 @@ fn sync_main(tier: vh::Tier) -> i32 {
     let mut jobs: Vec<(usize, usize)> = vec![];
     for (pi, (name, _)) in plans.iter().enumerate() {
         let max_bound = match (tier, *name) {
+            (vh::Tier::Quick, "3x2") => 1, // 3x2 with 2 preemptions is 10 660 schedules (~40 s): thorough only
             (vh::Tier::Quick, _) => 2,
             (vh::Tier::Thorough, "2x2") | (vh::Tier::Thorough, "2x2-mixed") => 4,
             (vh::Tier::Thorough, _) => 3,
